@@ -84,8 +84,15 @@ impl Client {
         let counter_metadata = AlignedBuffer::with_capacity(512 * 64);
         let counter_values = AlignedBuffer::with_capacity(128 * 64);
         let ring = Arc::new(ManyToOneRingBuffer::new(AtomicBuffer::from_aligned(&to_driver)).expect("ring"));
-        for _ in 0..client_id {
-            ring.next_correlation_id();
+        // the driver's 64-bit correlation counter (ring trailer) stands at `client_id` when the client connects: small values are counted
+        // up as before, large ones (2^31, 2^32+5, 2^40 ...: a long lived driver) are written into the trailer directly
+        if client_id >= 0 && client_id <= 4096 {
+            for _ in 0..client_id {
+                ring.next_correlation_id();
+            }
+        } else {
+            AtomicBuffer::from_aligned(&to_driver)
+                .put::<i64>(1024 * 64 + aeron_rs::concurrent::ring_buffer::CORRELATION_COUNTER_OFFSET, client_id);
         }
         let receiver = Arc::new(Mutex::new(BroadcastReceiver::new(AtomicBuffer::from_aligned(&to_clients)).expect("bcast")));
         let transmitter = BroadcastTransmitter::new(AtomicBuffer::from_aligned(&to_clients)).expect("transmitter");
